@@ -1,5 +1,6 @@
 import ClipVerif.Check.Region
 import ClipVerif.Check.Exact
+import ClipVerif.Check.Cover
 /-
 Line protocol helpers: integer token streams → paths / path sets, and the predicate table of
 the region checker.
@@ -123,5 +124,45 @@ def c14 (sub : String) (ts : Toks) : String :=
       if b2i (decide (w ≥ 0)) == got then "ok" else s!"bad positive area2={w} got={got}"
     | _ => "parse-error positive"
   | _, _ => "parse-error c14"
+
+/-- `cover c09 <ct> <fr> <r2> <open subject paths> <closed subject paths> <clip paths> <open solution>`
+    `cover rect <l> <t> <r> <b> <r2> <open paths> <open solution>` -/
+def cover (mode : String) (ts : Toks) : String :=
+  match mode, ts with
+  | "c09", ct :: fr :: r2 :: rest =>
+    match takePaths rest with
+    | some (subj, rest) => match takePaths rest with
+      | some (cs, rest) => match takePaths rest with
+        | some (cc, rest) => match takePaths rest with
+          | some (sol, []) =>
+            let closed := (cs ++ cc).flatMap edgesOf
+            let keep (q : QPt) : Bool :=
+              let inS := filled fr.toNat (windS cs q); let inC := filled fr.toNat (windS cc q)
+              match ct with
+              | 1 => inC
+              | 2 => !inS && !inC
+              | _ => !inC
+            let r := checkCover subj closed closed (r2 : Rat) (1/4) (9/4) keep sol
+            match r.bad with
+            | some m => s!"bad {m}"
+            | none => s!"ok pieces={r.pieces} judged={r.judged}"
+          | _ => "parse-error cover sol"
+        | none => "parse-error cover clip"
+      | none => "parse-error cover closed"
+    | none => "parse-error cover subj"
+  | "rect", l :: t :: r :: b :: r2 :: rest =>
+    match takePaths rest with
+    | some (subj, rest) => match takePaths rest with
+      | some (sol, []) =>
+        let rectPath : List IPt := [⟨l, t⟩, ⟨r, t⟩, ⟨r, b⟩, ⟨l, b⟩]
+        let sides := edgesOf rectPath
+        let inside (q : QPt) : Bool := decide ((l : Rat) < q.x ∧ q.x < (r : Rat) ∧ (t : Rat) < q.y ∧ q.y < (b : Rat))
+        let res := checkCover subj sides sides (r2 : Rat) (1/4) 1 inside sol
+        match res.bad with
+        | some m => s!"bad {m}"
+        | none => s!"ok pieces={res.pieces} judged={res.judged}"
+      | _ => "parse-error cover sol"
+    | none => "parse-error cover subj"
+  | _, _ => "parse-error cover"
 
 end Proto
